@@ -9,7 +9,9 @@
                                    -> LintGroup::lint on that document: whole-document rules with what each returns now,
                                       then one field per token slice of iter_chunks(): its tokens (span, kind id) and
                                       what each pattern rule returns on it now (document space).  Hull, chunk characters,
-                                      relative tokens, key, hit/miss, pull_by / push_by: the MODEL.  prints "P" or "s e p ..." *)
+                                      relative tokens, key, hit/miss, pull_by / push_by: the MODEL.  prints "P" or "s e p ..."
+     GE|...                        -> the same call on the same state, but over the REAL LRU (Model/C03LintGroupLru.v: promotion on
+                                      get, least recently used entry popped on put at capacity lint_group_cache_cap) *)
 let rec pairs = function a :: b :: t -> (nat_of_int a, nat_of_int b) :: pairs t | _ -> []
 (* unsigned 64-bit decimal <-> extracted binary N *)
 let n_of_u64 (x : int64) : n =
@@ -42,7 +44,14 @@ let tok_hash rt =
   match Hashtbl.find_opt thash k with
   | Some h -> n_of_int h
   | None -> let h = Hashtbl.length thash + 1 in Hashtbl.replace thash k h; n_of_int h
+(* one shared N per code point: the cache keys of a long history (10 000 chunk texts) stay small and hot *)
+let cp_tbl : (int, n) Hashtbl.t = Hashtbl.create 256
+let intern_text (t : n list) : n list =
+  List.map (fun c -> let i = int_of_n c in
+    match Hashtbl.find_opt cp_tbl i with Some c' -> c' | None -> Hashtbl.replace cp_tbl i c; c) t
 let st = ref (lg_fresh (n_of_int 0))
+(* the capacity of chunk_pattern_cache as lint_group.rs states it (Tables_c03cache.v, regenerated on every run) *)
+let cap = lazy lint_group_cache_cap
 (* "name: s e p .." -> (name, lints) *)
 let rule_item (s : string) : (int * clint list) option =
   match String.split_on_char ':' s with
@@ -92,9 +101,9 @@ let () =
          | [hd] when String.length hd > 2 && hd.[1] = 'C' ->
              st := run_lg_set_cfg !st (n_of_dec (String.trim (String.sub hd 2 (String.length hd - 2))));
              print_endline "ok"
-         | "GL" :: src :: whole :: chunks ->
+         | ("GL" | "GE" as tag) :: src :: whole :: chunks ->
              (try
-               let src = text_of_line src in
+               let src = intern_text (text_of_line src) in
                let linters = List.filter_map (fun s -> match rule_item s with
                    | Some (n, ls) -> Some (n_of_int n, (fun _ _ -> ls))
                    | None -> None) (String.split_on_char ';' whole) in
@@ -113,7 +122,8 @@ let () =
                        ts) chunks in
                let plinters = List.map (fun n ->
                    (n_of_int n, (fun _ _ ts -> match Hashtbl.find_opt tbl (n, str_toks ts) with Some v -> v | None -> failwith "unknown chunk"))) !names in
-               (match run_lg_lint (fun c -> c) tok_hash linters plinters !st src chunk_toks with
+               let run = if tag = "GE" then run_lg_lint_lru (Lazy.force cap) else run_lg_lint in
+               (match run (fun c -> c) tok_hash linters plinters !st src chunk_toks with
                 | None -> print_endline "P"
                 | Some ((s2, out), _) -> st := s2; print_endline (show_lints out))
              with Failure m -> print_endline ("? " ^ m))
